@@ -24,6 +24,7 @@ type RawClause struct {
 	Loop  int      // for invariant/decreases/assigns-in-loop: loop ordinal; -1 otherwise
 	Line  int
 	Id    int // index in the generated clause function
+	Callee string // for callsite clauses: name of the called function
 }
 
 type RawContract struct {
@@ -261,6 +262,15 @@ func parseContractFile(path string) (*ContractFile, error) {
 				if !layerSkips(c.Props) {
 					cur.Clauses = append(cur.Clauses, c)
 				}
+			case "callsite":
+				// callsite <callee> [label] {props} expr: must hold whenever the function calls <callee>
+				fs := strings.Fields(rest)
+				if len(fs) < 2 {
+					return fmt.Errorf("%s:%d: bad callsite clause", path, ln)
+				}
+				c := &RawClause{Kind: "callsite", Loop: -1, Line: ln, Callee: fs[0]}
+				c.Label, c.Props, c.Text = splitLabel(strings.TrimSpace(rest[len(fs[0]):]))
+				cur.Clauses = append(cur.Clauses, c)
 			case "loop":
 				// loop N invariant|decreases|assigns [label:] expr
 				fs := strings.Fields(rest)
@@ -579,6 +589,8 @@ func govcErrIs[T any](err error, target T) bool           { return false }
 func govcSameBase[T any](a, b []T) bool                   { return true }
 func govcOffset[T any](a []T) int                         { return 0 }
 func govcGassign[T any](id int, target, value T, cond bool) int { return 0 }
+func govcF32bits(u uint32) float32                        { return 0 }
+func govcF64bits(u uint64) float64                        { return 0 }
 
 const govcStar = -1
 `
@@ -599,7 +611,7 @@ func genOverlay(cf *ContractFile) (string, error) {
 			body.WriteString("func govcIfaceOf(v reflect.Value) interface{} { return v.Interface() }\n")
 			body.WriteString("func govcRvmt(v reflect.Value) int { return 0 }\nfunc govcRvfld(v reflect.Value) int { return 0 }\nfunc govcRvobj(v reflect.Value) int { return 0 }\nfunc govcRvcls(v reflect.Value) int { return 0 }\nfunc govcRvttag(v reflect.Value) int { return 0 }\nfunc govcRvstate(v reflect.Value) int { return 0 }\nfunc govcRvwid(v reflect.Value) int { return 0 }\nfunc govcRvecls(v reflect.Value) int { return 0 }\nfunc govcRvewid(v reflect.Value) int { return 0 }\nfunc govcRvvalid(v reflect.Value) bool { return v.IsValid() }\nfunc govcRvismsg(v reflect.Value, m int) bool { return true }\n")
 			body.WriteString("func govcMsgOf[T any](v reflect.Value) T { return v.Interface().(T) }\n")
-			body.WriteString("func govcRvint(v reflect.Value) int { return 0 }\nfunc govcRvflt(v reflect.Value) float64 { return 0 }\nfunc govcRvfieldof(v reflect.Value, i int) reflect.Value { return v }\nfunc govcRvcell(v reflect.Value) int { return 0 }\n")
+			body.WriteString("func govcRvint(v reflect.Value) int { return 0 }\nfunc govcRvflt(v reflect.Value) float64 { return 0 }\nfunc govcRvfieldof(v reflect.Value, i int) reflect.Value { return v }\nfunc govcRvcell(v reflect.Value) int { return 0 }\nfunc govcRvstr(v reflect.Value) string { return \"\" }\n")
 		}
 	}
 	{
@@ -770,7 +782,7 @@ func genOverlay(cf *ContractFile) (string, error) {
 	return b.String(), nil
 }
 
-var reBuiltin = regexp.MustCompile(`\b(old|ite|fresh|same|isNaN|ifaceOf|samebase|offset|isEOF|isUEOF|iserr|isLE|isBE|ifaceobj|allfields|rvmt|rvfld|rvobj|rvcls|rvttag|rvstate|rvwid|rvecls|rvewid|rvvalid|rvismsg|rvtimeat|rvcell|rvtime|rvint|rvflt|rvfieldof|tsec|tns|tzoff|tzid|rvNumField|rvClass|rvWidth|rvEClass|rvEWidth|rvTypeTag)\(`)
+var reBuiltin = regexp.MustCompile(`\b(old|ite|fresh|same|isNaN|ifaceOf|samebase|offset|isEOF|isUEOF|iserr|isLE|isBE|ifaceobj|allfields|rvmt|rvfld|rvobj|rvcls|rvttag|rvstate|rvwid|rvecls|rvewid|rvvalid|rvismsg|rvstr|f32bits|f64bits|rvtimeat|rvcell|rvtime|rvint|rvflt|rvfieldof|tsec|tns|tzoff|tzid|rvNumField|rvClass|rvWidth|rvEClass|rvEWidth|rvTypeTag)\(`)
 var reTypeIs = regexp.MustCompile(`\btypeis\[`)
 var reMsgOf = regexp.MustCompile(`\bmsgOf\[`)
 var reTypeTag = regexp.MustCompile(`\btypetag\[`)
@@ -851,6 +863,12 @@ func rewriteBuiltins(s string) string {
 			return "govcRvtime("
 		case "rvtimeat(":
 			return "govcRvtimeat("
+		case "rvstr(":
+			return "govcRvstr("
+		case "f32bits(":
+			return "govcF32bits("
+		case "f64bits(":
+			return "govcF64bits("
 		case "rvcell(":
 			return "govcRvcell("
 		case "rvint(":
